@@ -62,7 +62,10 @@ def unname (s : String) : Option String :=
   | 'n' :: rest => (unhexChars rest).map bytesToString
   | _ => none
 
-def nameStr (s : String) : String := if s == "" then "_" else "n" ++ (hex s.toUTF8.toList).drop 1
+/-- inverse of `bytesToString`: names travel as byte strings (Go strings), one `Char` per byte -/
+def stringToBytes (s : String) : Bytes := s.toList.map (fun c => c.toNat.toUInt8)
+
+def nameStr (s : String) : String := if s == "" then "_" else "n" ++ (hex (stringToBytes s)).drop 1
 
 def unbool (s : String) : Option Bool := if s == "T" then some true else if s == "F" then some false else none
 def boolStr (b : Bool) : String := if b then "T" else "F"
